@@ -33,6 +33,9 @@ func (ft *fnTrans) call(x ssa.Value, c *ssa.CallCommon, h *Heap, reach string) {
 	if ft.omCall(x, key, c, h, reach) {
 		return
 	}
+	if ft.msCall(x, key, c, h, reach) {
+		return
+	}
 	if strings.HasPrefix(key, "sync/atomic.Add") {
 		loc := ft.locOf(c.Args[0])
 		nv := vc.define(nameOr(x, "atomic"), "Int", "(+ "+ft.load(loc, *h)+" "+ft.val(c.Args[1])+")")
@@ -401,6 +404,9 @@ func (ft *fnTrans) applyContract(x ssa.Value, fc *FuncContract, callee *ssa.Func
 	}
 	post.heap = *h
 	for _, e := range fc.Ensures {
+		if e.Assumed {
+			vc.assumed["assumed clause of "+shortFuncName(key)+": "+e.Src] = true
+		}
 		t, err := post.Bool(e.Expr)
 		if err != nil {
 			if e.Optional {
@@ -744,7 +750,8 @@ func (vc *VC) detUF(key string, i int, argSorts, argTerms []string, resSort stri
 
 func isHigherOrder(key string) bool {
 	switch key {
-	case "slices.ContainsFunc", "slices.IndexFunc", "slices.SortFunc", "slices.SortStableFunc", "slices.Contains", "slices.Sort":
+	case "slices.ContainsFunc", "slices.IndexFunc", "slices.SortFunc", "slices.SortStableFunc", "slices.Contains", "slices.Sort",
+		modulePath + "/common/linq.Map", modulePath + "/common/linq.First":
 		return true
 	}
 	return false
@@ -786,6 +793,38 @@ func (ft *fnTrans) higherOrder(x ssa.Value, key string, c *ssa.CallCommon, h *He
 	inRange := func(v string) string { return and("(<= 0 "+v+")", "(< "+v+" (s-len "+s+"))") }
 	vc.assumed["modelled library helper: "+key+" (closure body evaluated in place)"] = true
 	switch key {
+	case modulePath + "/common/linq.Map":
+		// a fresh slice of the same length whose i-th element is f(in[i]) (f: a literal without effects)
+		rt := c.Signature().Results().At(0).Type().Underlying().(*types.Slice)
+		base := ft.newRef(h, "alloc")
+		res := vc.define(nameOr(x, "linqmap"), "Slice", fmt.Sprintf("(mk-slice %s 0 (s-len %s) (s-len %s))", base, s, s))
+		rc := vc.compElems(rt.Elem())
+		oldT := vc.get(*h, rc)
+		newT := vc.havoc(h, rc)
+		vc.assume(fmt.Sprintf("(forall ((r Int)) (! (=> (not (= r %s)) (= (select %s r) (select %s r))) :pattern ((select %s r))))", base, newT, oldT, newT))
+		fi := ft.evalClosure(fn, bindings, []string{elemAt(*h, iv)}, *h)
+		vc.assume(fmt.Sprintf("(forall ((%s Int)) (! (=> %s (= (select (select %s %s) %s) %s)) :pattern ((select (select %s %s) %s))))", iv, inRange(iv), newT, base, iv, fi, newT, base, iv))
+		ft.vals[x] = res
+	case modulePath + "/common/linq.First":
+		// nil when no element matches, otherwise a pointer to a fresh copy of the first matching element
+		idx := vc.fresh(nameOr(x, "first")+".idx", "Int")
+		pr := ft.evalClosure(fn, bindings, []string{elemAt(*h, idx)}, *h)
+		pj := ft.evalClosure(fn, bindings, []string{elemAt(*h, jv)}, *h)
+		vc.assume(and("(<= (- 1) "+idx+")", "(< "+idx+" (s-len "+s+"))"))
+		vc.assume(implies("(>= "+idx+" 0)", pr))
+		vc.assume(fmt.Sprintf("(forall ((%s Int)) (=> (and (<= 0 %s) (< %s (s-len %s)) (or (< %s 0) (< %s %s))) (not %s)))", jv, jv, jv, s, idx, jv, idx, pj))
+		cell := ft.newRef(h, "alloc")
+		found := elemAt(*h, idx)
+		if st, ok := sl.Elem().Underlying().(*types.Struct); ok {
+			for i := 0; i < st.NumFields(); i++ {
+				fc := vc.compField(sl.Elem(), i)
+				vc.set(h, fc, sto(vc.get(*h, fc), cell, vc.sorts.structGet(sl.Elem(), i, found)))
+			}
+		} else {
+			cc := vc.compCell(sl.Elem())
+			vc.set(h, cc, sto(vc.get(*h, cc), cell, found))
+		}
+		ft.vals[x] = vc.define(nameOr(x, "first"), "Int", ite("(>= "+idx+" 0)", cell, "0"))
 	case "slices.ContainsFunc":
 		p := ft.evalClosure(fn, bindings, []string{elemAt(*h, iv)}, *h)
 		ft.vals[x] = vc.define(nameOr(x, "contains"), "Bool", fmt.Sprintf("(exists ((%s Int)) %s)", iv, and(inRange(iv), p)))
